@@ -482,7 +482,7 @@ func cfgSearch(fl *Flow, from ssa.Instruction, startBlock *ssa.BasicBlock, targe
 	rec = func(b *ssa.BasicBlock, start int) ssa.Instruction {
 		for i := start; i < len(b.Instrs); i++ {
 			in := b.Instrs[i]
-			if avoid != nil && (avoid(in) || helperAlways(in, avoid, 0)) {
+			if avoid != nil && (avoid(in) || helperAlways(in, avoid, 0) || helperAlwaysOrBlocked(fl.P, in, avoid, blocked, 0)) {
 				return nil
 			}
 			if target(in) {
@@ -543,6 +543,54 @@ func helperAlways(in ssa.Instruction, pred func(ssa.Instruction) bool, depth int
 	}
 	inner := func(x ssa.Instruction) bool { return pred(x) || helperAlways(x, pred, depth+1) }
 	return reachAvoidFromPlain(cal.Blocks[0], 0, isReturn, inner, map[*ssa.BasicBlock]bool{cal.Blocks[0]: true}) == nil
+}
+
+// helperAlwaysOrBlocked: in is a static call of a helper of the caller's package, and every path through the helper
+// either passes an instruction satisfying pred or leaves on an edge closed by blocked (judged on the helper's own
+// edge facts: `func (c) signalIfFull() { if c.hasFullBatch() { c.signalReady() } }` satisfies "signal, unless not full").
+func helperAlwaysOrBlocked(p *Prog, in ssa.Instruction, pred func(ssa.Instruction) bool, blocked func([]Fact) bool, depth int) bool {
+	ci, ok := in.(ssa.CallInstruction)
+	if !ok || blocked == nil || depth > 1 {
+		return false
+	}
+	if _, isGo := in.(*ssa.Go); isGo {
+		return false
+	}
+	cal := ci.Common().StaticCallee()
+	if cal == nil || cal.Blocks == nil || cal.Synthetic != "" || cal == in.Parent() || funcPkgPath(cal) != funcPkgPath(in.Parent()) {
+		return false
+	}
+	hfl := NewFlow(p, cal)
+	return cfgSearchPlain(hfl, cal.Blocks[0], isReturn, func(x ssa.Instruction) bool {
+		return pred(x) || helperAlways(x, pred, depth+1)
+	}, blocked) == nil
+}
+
+// cfgSearchPlain: cfgSearch from the start of a block without the helper expansions (used by them).
+func cfgSearchPlain(fl *Flow, b *ssa.BasicBlock, target, avoid func(ssa.Instruction) bool, blocked func([]Fact) bool) ssa.Instruction {
+	seen := map[*ssa.BasicBlock]bool{}
+	var rec func(b *ssa.BasicBlock) ssa.Instruction
+	rec = func(b *ssa.BasicBlock) ssa.Instruction {
+		for _, in := range b.Instrs {
+			if avoid(in) {
+				return nil
+			}
+			if target(in) {
+				return in
+			}
+		}
+		for _, s := range b.Succs {
+			if seen[s] || blocked(fl.edgeFacts(b, s)) {
+				continue
+			}
+			seen[s] = true
+			if r := rec(s); r != nil {
+				return r
+			}
+		}
+		return nil
+	}
+	return rec(b)
 }
 
 // reachAvoidFromPlain is reachAvoidFrom without helper expansion (used by helperAlways itself).
